@@ -188,21 +188,28 @@ Definition dec_len (t : nat) (slots : list slot) (adv : list slot * list nat) : 
 Definition freeze (S : nat) (slots : list slot) : list slot :=
   map (fun sl => mkSlot (col sl ++ [pad]) (len sl) (sc sl)) (to_width topk width S slots).
 
+(* y_next.size(0) as beam_search_advance returns it *)
+Definition adv_height (h : nat) (grow : bool) : nat :=
+  match h with 0 => 1 | S _ => if grow then S h else h end.
+
+(* "if y_next.size(0) == y_prev_.size(0): y_next = cat([y_next, pad_y])": keeps
+   y.size(0) == t + 1 when beam_search_advance did not have to grow y *)
+Definition pad_row (h : nat) (grow : bool) (sl : slot) : slot :=
+  if adv_height h grow =? h then mkSlot (col sl ++ [pad]) (len sl) (sc sl) else sl.
+
 (* what one iteration does to batch element n: (new beam, new slice of prev) *)
 Definition elem_step (t : nat) (b : bstate) (grow frz : bool) (innext : list state) (n : nat)
   : list slot * list state :=
   let slots := nth n (beams b) [] in
   let adv := advance1 topk V width (hS b) true grow (map clamp_slot slots) (logp_of t b n) in
-  (if frz && done_of t slots then freeze (hS b) slots else dec_len t slots adv,
+  let adv' := (map (pad_row (hS b) grow) (fst adv), snd adv) in
+  (if frz && done_of t slots then freeze (hS b) slots else dec_len t slots adv',
    map (fun s => nth (n * pw b + s) innext dstate) (snd adv)).
 
-(* one iteration of the for loop; None = break.
-   NOT modelled: the two exceptions the code can raise here when beam_search_advance did not
-   grow y (no length has reached S) although the loop goes on - (i) the LM is then asked for
-   idx = t > hist.size(0), (ii) torch.where(done_mask, y_prev ++ pad, y_next) has mismatching
-   heights when some but not all elements are done.  Only reachable with zero-probability
-   tokens under finish_all_paths (see notes/C04_report.md); [search] describes what is returned
-   when forward() returns. *)
+Definition next_height (h : nat) (grow : bool) : nat :=
+  if adv_height h grow =? h then S (adv_height h grow) else adv_height h grow.
+
+(* one iteration of the for loop; None = break *)
 Definition step (t : nat) (b : bstate) : option bstate :=
   let N := length (beams b) in
   let dones := map (done_of t) (beams b) in
@@ -212,8 +219,7 @@ Definition step (t : nat) (b : bstate) : option bstate :=
     let frz := match eos with Some _ => existsb (fun x => x) dones | None => false end in
     let innext := in_next t b in
     let res := map (elem_step t b grow frz innext) (seq 0 N) in
-    Some (mkB (map fst res) (flat_map snd res) width
-              (match hS b with 0 => 1 | S _ => if grow then S (hS b) else hS b end)).
+    Some (mkB (map fst res) (flat_map snd res) width (next_height (hS b) grow)).
 
 Fixpoint loop (fuel t : nat) (b : bstate) : bstate * bool :=
   match fuel with
